@@ -2,7 +2,7 @@
 import importlib
 import sys
 
-MODELS = ["vt.ref.canonjson", "vt.ref.redact", "vt.ref.ed25519", "vt.ref.event_sig", "vt.ref.ids", "vt.ref.ruleset_model", "vt.ref.glob", "vt.ref.pushrules", "vt.ref.html_model", "vt.ref.endpoint", "vt.ref.auth"]
+MODELS = ["vt.ref.canonjson", "vt.ref.redact", "vt.ref.ed25519", "vt.ref.event_sig", "vt.ref.ids", "vt.ref.ruleset_model", "vt.ref.glob", "vt.ref.pushrules", "vt.ref.html_model", "vt.ref.endpoint", "vt.ref.auth", "vt.ref.stateres"]
 
 
 def main():
